@@ -1,9 +1,48 @@
 import Driver.Util
+import PalomaModel.Props.C09
 namespace Driver.C09
-/-- the model's prediction for every block is "ok": begin/end-block processing is total
-    (Props/C09.lean); the harness reports "aborted" when FinalizeBlock errs or panics. -/
+open Paloma.NoPanic
+
+def parseCache? (s : String) : Option (Option Nat) :=
+  if s == "-" then some none else (Driver.parseNat? s).map some
+
+def showCache : Option Nat → String
+  | none => "-"
+  | some c => toString c
+
+def parseRec? (s : String) : Option (Option DeployStatus) :=
+  if s == "none" then some none
+  else if s == "inflight" then some (some .inFlight)
+  else if s == "waiting" then some (some .waitingForTransfer)
+  else if s == "failed" then some (some .failed)
+  else none
+
+/-- `block <height> <txs>`: the model's prediction for every block is "ok": begin/end-block processing is total
+    (Props/C09.lean); the harness reports "aborted" when FinalizeBlock errs or panics.
+    `endblock metrix <height> <nonce cache|-> <ids of validator 1> <ids of validator 2> …`: the relay-history part of the
+    metrix end blocker (`Metrix.endBlock`) → `returned <ids> <ids> …` | `aborted`.
+    `relay <height> <assigned> <handled> <id> <nonce cache|-> <ids>`: `OnConsensusMessageAttested` → `<cache> <ids>`.
+    `attestch <none|inflight|waiting|failed>`: a compass handover is attested while its deployment record is in that state
+    → `activated` | `skipped` (the block goes on either way; `aborted` is never predicted). -/
 def step (args : List String) : String :=
   match args with
   | ["block", _, _] => "ok"
+  | "endblock" :: "metrix" :: h :: c :: hs =>
+    match Driver.parseNat? h, parseCache? c, hs.mapM Driver.parseNatList? with
+    | some height, some cache, some hist =>
+      match Metrix.endBlock height cache hist with
+      | some out => " ".intercalate ("returned" :: out.map Driver.showNatList)
+      | none => "aborted"
+    | _, _, _ => "bad-op"
+  | ["relay", h, a, d, i, c, xs] =>
+    match Driver.parseNat? h, Driver.parseInt? a, Driver.parseInt? d, Driver.parseNat? i, parseCache? c, Driver.parseNatList? xs with
+    | some height, some assigned, some handled, some id, some cache, some ids =>
+      let r := Metrix.record height assigned handled id cache ids
+      s!"{showCache r.1} {Driver.showNatList r.2}"
+    | _, _, _, _, _, _ => "bad-op"
+  | ["attestch", r] =>
+    match parseRec? r with
+    | some rec => if (activate rec).isSome then "activated" else "skipped"
+    | none => "bad-op"
   | _ => "bad-op"
 end Driver.C09
